@@ -1,35 +1,42 @@
 #!/usr/bin/env python3
-"""Runs the repository's pinned suite (hooks OFF, default go toolchain) and compares with BASELINE.json stable_pass."""
+"""Runs the repository's pinned suite (hooks OFF, default go toolchain) and compares with BASELINE.json stable_pass.
+usage: baseline_check.py [module ...]     module = . | om | rueidiscompat | ... (default: all modules of the baseline)
+env REPO_DIR=<dir> runs a scratch copy instead of /repo."""
 import json, subprocess, sys, os
 base = json.load(open('/root/.vp/BASELINE.json'))
 want = set(base['stable_pass'])
-mods = [l.strip() for l in open('/w/out/gomods.txt') if l.strip()]
-only = sys.argv[1:]  # optional module subset
+repo = os.environ.get('REPO_DIR', '/repo')
+mods = [l.strip().lstrip('./') or '.' for l in open('/w/out/gomods.txt') if l.strip()]
+only = [a.lstrip('./') or '.' for a in sys.argv[1:]]
 status = {}
 env = dict(os.environ); env['GOFLAGS'] = '-mod=mod'
-for k in ('GOTOOLCHAIN',): env.pop(k, None)
+env.pop('GOTOOLCHAIN', None)
+ran = []
 for m in mods:
     if only and m not in only: continue
-    p = subprocess.Popen(['go', 'test', '-json', '-vet=off', '-count=1', '-timeout', '25m', './...'], cwd=os.path.join('/repo', m), stdout=subprocess.PIPE, stderr=subprocess.STDOUT, text=True, env=env)
+    ran.append(m)
+    p = subprocess.Popen(['go', 'test', '-json', '-vet=off', '-count=1', '-timeout', '25m', './...'], cwd=os.path.join(repo, m), stdout=subprocess.PIPE, stderr=subprocess.STDOUT, text=True, env=env)
     for line in p.stdout:
         try: ev = json.loads(line)
         except Exception: continue
         if ev.get('Test') and ev.get('Action') in ('pass', 'fail', 'skip'):
             status[ev['Package'] + '::' + ev['Test']] = ev['Action']
     p.wait()
-pk = None
-if only:
-    pk = set()
-    for m in only:
-        pk.add('github.com/redis/rueidis' + ('' if m == '.' else '/' + m.lstrip('./')))
+root = 'github.com/redis/rueidis'
+submods = [m for m in mods if m != '.']
+def module_of(pkg):
+    rel = pkg[len(root):].lstrip('/')
+    for m in submods:
+        if rel == m or rel.startswith(m + '/'):
+            return m
+    return '.'
 missing = []
+considered = 0
 for t in sorted(want):
-    pkg = t.split('::')[0]
-    if pk is not None and not any(pkg == p or (p == 'github.com/redis/rueidis' and False) for p in pk) and not any(pkg.startswith(p + '/') for p in pk if p != 'github.com/redis/rueidis'):
-        if not (('github.com/redis/rueidis' in pk) and (pkg == 'github.com/redis/rueidis' or pkg.startswith('github.com/redis/rueidis/internal') or pkg.startswith('github.com/redis/rueidis/rueidislock') or pkg.startswith('github.com/redis/rueidis/hack'))):
-            continue
+    if module_of(t.split('::')[0]) not in ran: continue
+    considered += 1
     if status.get(t) != 'pass':
         missing.append((t, status.get(t)))
-print('stable_pass wanted:', len(want), 'observed tests:', len(status), 'not passing:', len(missing))
+print('modules:', ' '.join(ran), '| stable_pass considered:', considered, 'observed tests:', len(status), 'not passing:', len(missing))
 for t, s in missing[:40]: print('  NOT-PASS', t, s)
 sys.exit(1 if missing else 0)
